@@ -213,6 +213,17 @@ func runR(c RCase, rec *h.Rec) {
 		seqLen = 0
 	}
 	r := &sam.Record{Name: "r", Pos: c.Pos, Flags: sam.Flags(c.Flags), Cigar: cig}
+	// the record may belong to a reference (of any declared length: circular
+	// genomes and hand-made headers put alignments past LN); none of the values
+	// below is defined in terms of it
+	switch c.Pos % 4 {
+	case 1:
+		r.Ref, _ = sam.NewReference("short", "", "", 1+c.Pos/2, nil, nil)
+	case 2:
+		r.Ref, _ = sam.NewReference("exact", "", "", c.Pos+1, nil, nil)
+	case 3:
+		r.Ref, _ = sam.NewReference("long", "", "", 1<<31-1, nil, nil)
+	}
 	unmapped := c.Flags&uint16(sam.Unmapped) != 0
 	// End
 	var wantEnd int
